@@ -196,7 +196,7 @@ class C07(Check):
         if k == 'row':
             r = self._rows[case['i']]
             return {kk: r.get(kk) for kk in ('op', 'profile', 'shape', 'args', 'capsMode', 'outcome', 'nsent', 'asserted', 'probedMinus', 'outsider',
-                                             'rootNs', 'rootName', 'hasMsgId', 'nOps', 'opNs', 'opName', 'params', 'sentinels')}
+                                             'rootNs', 'rootName', 'hasMsgId', 'nOps', 'opNs', 'opName', 'params', 'sentinels', 'enumLeaves')}
         if k == 'doc':
             from ncclient.xml_ import to_xml, to_ele
             try:
